@@ -1,9 +1,155 @@
 package c02
 
-import "verif/harness/core"
+import (
+	"strings"
 
-type pin struct{ name, a, b string }
+	"verif/harness/core"
+)
 
-var pinned = []pin{}
+// Pinned regression witnesses (indices -1 … -len(pinned)).  Two forms:
+//
+//	pair:   a and b are semantically equal programs (a rewrite pair); goja must show the same observation for both
+//	expect: goja's observation of a must equal the literal expectation derived from the specification
+//
+// Each witness failed on the pinned tree or on a tree with one of today's compiler fixes reverted.
+type pin struct {
+	name   string
+	a, b   string
+	expect string // "event\nevent\n…\nFINAL"
+}
 
-func runPinned(c *core.Ctx) core.Result { return core.Result{Verdict: core.Held} }
+var pinned = []pin{
+	// ---- today's compiler fixes, as rewrite pairs
+	{name: "and-fold-statement-position", // 41b15bf (R7)
+		a: `function f(a, b) { var r = 0; for (var i = 0; i < 3; i++) { r += i; } return [a, b, r]; } var t = f(1, 2); log(t[0], t[1], t[2]);`,
+		b: `false && 1; function f(a, b) { var r = 0; for (var i = 0; i < 3; i++) { false && a; (false && b, r += i); } return [a, b, r]; } var t = f(1, 2); log(t[0], t[1], t[2]);`},
+	{name: "blocks-without-bindings-under-eval", // 01ece19 (R3)
+		a: `function f(a) { var q = 5; { { log(a, q); return a + q; } } } log(f(1));`,
+		b: `function f(a) { var q = 5; eval(""); { { log(a, q); return a + q; } } } log(f(1));`},
+	{name: "class-expression-scope-under-eval", // 01ece19 (R3 inside a method of an anonymous class expression)
+		a: `function f(a) { let q = 3; return new (class { m() { return a + q; } })().m(); } log(f(7));`,
+		b: `function f(a) { let q = 3; return new (class { m() { eval(""); return a + q; } })().m(); } log(f(7));`},
+	{name: "dummy-mode-break-chain", // b3d2da1 (R7)
+		a: `for (var i = 0; i < 2; i++) { L: { for (;;) { break; } } log(i); }`,
+		b: `for (var i = 0; i < 2; i++) { L: { for (;;) { break; if (0) { break L; } while (false) { continue; } } } log(i); }`},
+	{name: "lexical-declaration-after-jump", // cd2cfb4
+		a: `for (var i = 0; i < 2; i++) { log(i); continue; }`,
+		b: `for (var i = 0; i < 2; i++) { log(i); continue; let z = 1; class K {} log(z); }`},
+	{name: "switch-lexical-eval", // b711a1d (R3)
+		a: `function f(x) { switch (x) { case 1: let y = 2; log(y, x); function g() { return y; } log(g()); } } f(1);`,
+		b: `function f(x) { switch (x) { case 1: let y = 2; eval(""); log(y, x); function g() { return y; } log(g()); } } f(1);`},
+	{name: "strict-parameter-expressions-eval", // 3f67a22 (R3)
+		a: `"use strict"; function f(a = 1) { return [typeof this, a]; } var t = f.call(5); log(t[0], t[1]);`,
+		b: `"use strict"; function f(a = 1) { eval(""); return [typeof this, a]; } var t = f.call(5); log(t[0], t[1]);`},
+	{name: "optional-chain-in-spread-call", // d372857
+		a:      `var o = null; log(o?.m(...[1, 2]), [o?.m(...[1])].length, 3);`,
+		expect: "L u d:3ff0000000000000 d:4008000000000000\nRET u"},
+	{name: "arguments-captured-by-arrow", // 187d0ea (R8 IIFE)
+		a: `function f(c, b) { log(arguments[1]); } f(1, 5);`,
+		b: `function f(c, b) { (() => { log(arguments[1]); })(); } f(1, 5);`},
+
+	// ---- findings of this check
+	{name: "constfold-error-global-lookup", // R1: constant operand <-> variable
+		a: `var saved = TypeError; TypeError = function Mine() { this.mine = 1; }; var c = 1n; try { c + 1; } catch (e) { log(e instanceof saved, e.mine); }`,
+		b: `var saved = TypeError; TypeError = function Mine() { this.mine = 1; }; try { 1n + 1; } catch (e) { log(e instanceof saved, e.mine); }`},
+	{name: "arrow-tostring-paren", // R9
+		a: `log(((x, f) => 0 + (f & 2))(0, 3));`,
+		b: `log(eval("(" + $src((x, f) => 0 + (f & 2)) + ")")(0, 3));`},
+	{name: "var-over-pattern-param", // R12
+		a: `log((function(a) { var a; return a; })(7));`,
+		b: `log((function([a]) { var a; return a; })([7]));`},
+	{name: "var-named-like-function-expression",
+		a:      `log((function g(a = 1) { var g; return typeof g; })());`,
+		expect: "L s:9:undefined\nRET u"},
+	{name: "eval-func-lexical", // R1 const@root
+		a: `log((0, eval)("function f() { return 5; } f()"));`,
+		b: `log((0, eval)("const k = 5; function f() { return k; } f()"));`},
+	{name: "strict-eval-arguments", // R5
+		a: `"use strict"; function y(b) { return eval("b"); } log(y(2));`,
+		b: `"use strict"; function y(b) { return eval("void arguments.length; b"); } log(y(2));`},
+	{name: "surplus-args-spill", // R3
+		a: `try { ((a) => { let g = g; })(0, 1); log("no error"); } catch (e) { log(e); }`,
+		b: `try { ((a) => { let g = g; (() => eval(""))(); })(0, 1); log("no error"); } catch (e) { log(e); }`},
+	{name: "forward-ref-default-supplied-argument",
+		a:      `var f = function(c = c) { var k; return [typeof arguments, arguments[0], c]; }; var t = f("2"); log(t[0], t[1], t[2]);`,
+		expect: "L s:6:object s:1:2 s:1:2\nRET u"},
+	{name: "eval-in-default-with-body-var", // R9 in a parameter list
+		a: `function a(c = function(c) { }, [o, a, b = 0]) { var c = 0; return c; } log(a(0, "x"));`,
+		b: `function a(c = eval("(function(c) { })"), [o, a, b = 0]) { var c = 0; return c; } log(a(0, "x"));`},
+	{name: "relational-left-associative",
+		a:      `log(3 > 2 > 1, 1 < 2 < 2, 3 >= 2 instanceof Error);`,
+		expect: "L b:false b:true b:false\nRET u"},
+	{name: "strict-primitive-base-destructuring-target",
+		a:      `"use strict"; var a = 0; try { [a.p] = [1]; log("no error"); } catch (e) { log(e); } try { a.q ??= 1; log("no error"); } catch (e) { log(e); }`,
+		expect: "L E:TypeError\nL E:TypeError\nRET u"},
+	{name: "null-base-destructuring-target-order",
+		a:      `var f; try { ({p: f.q} = {get p() { log("get"); }}); } catch (e) { log(e); }`,
+		expect: "L s:3:get\nL E:TypeError\nRET u"},
+	{name: "const-tdz-assignment",
+		a:      `{ try { c = 1; } catch (e) { log(e); } const c = 2; }`,
+		expect: "L E:ReferenceError\nRET u"},
+	{name: "int-mul-negative-zero",
+		a:      `var y = 0; log(-2 * y, y * -3);`,
+		expect: "L d:8000000000000000 d:8000000000000000\nRET u"},
+	{name: "catch-completion-value",
+		a:      `try { 0; var o = o[2]; } catch (e) { }`,
+		expect: "RET u"},
+	{name: "mapped-arguments-eval-var",
+		a:      `(function(x, o) { eval("var c = 1"); x = 5; arguments[1] = 9; log(arguments[0], o); })(0, 0);`,
+		expect: "L d:4014000000000000 d:4022000000000000\nRET u"},
+	{name: "catch-param-block-scope", // R9 / R3: the default of a catch parameter sees the block's let binding under dynamic scoping
+		a: `var b = 1; try { throw {}; } catch ({r: a = b}) { let b = 4; log(a, b); }`,
+		b: `var b = 1; try { throw {}; } catch ({r: a = b}) { let b = 4; eval(""); log(a, b); }`},
+	{name: "eval-var-function-expression-name",
+		a:      `log((function f() { eval("var f = 1"); return f; })());`,
+		expect: "L d:3ff0000000000000\nRET u"},
+	{name: "callee-binding-dropped",
+		a:      `log((function() { var x; return (function g(y = x) { function f() { g = 0; } return 5; })(); })());`,
+		expect: "L d:4014000000000000\nRET u"},
+	{name: "funcname-assign-stack-leak",
+		a:      `log((function f() { return [(f = 0, typeof f)].length; })(), (function g() { return {p: (g = 0, 7)}.p; })());`,
+		expect: "L d:3ff0000000000000 d:401c000000000000\nRET u"},
+	{name: "unresolvable-callee-order",
+		a:      `function g() { log("g"); } try { nof(g()); } catch (e) { log(e); }`,
+		expect: "L E:ReferenceError\nRET u"},
+	{name: "finally-nested-jump-completion",
+		a:      `for (var y = 0; y < 2; y++) { try { 7; } finally { if (1) continue; } }`,
+		expect: "RET u"},
+	{name: "nested-block-jump-completion",
+		a:      `var a = 3; while (a-- > 0) { a; { continue; } if (0) { } }`,
+		expect: "RET d:0000000000000000"},
+	{name: "parser-valid-patterns-rejected",
+		a:      `function f({r: [x = y >>>= b] = []}) { return x; } var y = 8, b = 1; var g = ([o = 1] = [], z) => o; var {q: [a = 1] = 2, p: c} = {q: []}; for (var {q: d = "q" in {}} of [{}]) ; log(f({}), g(), a, d);`,
+		expect: "L d:4010000000000000 d:3ff0000000000000 d:3ff0000000000000 b:false\nRET u"},
+}
+
+func runPinned(c *core.Ctx) core.Result {
+	p := pinned[-c.Index-1]
+	sig := "pinned:" + p.name
+	x := &exec{c: c, st: c.Stats}
+	oa := x.runOrig(p.a)
+	rec := caseRec{Pinned: p.name, Original: p.a, Variant: p.b, Expected: p.expect}
+	fail := func(monitor, detail string) core.Result {
+		return core.Result{Verdict: core.Violated, NonTrivial: true, Key: sig, Monitor: monitor, Detail: "pinned witness " + p.name + ": " + detail, Signature: sig, Case: rec}
+	}
+	if oa.Harness != "" {
+		return fail("harness-original", oa.Harness)
+	}
+	if p.expect != "" {
+		got := strings.Join(append(append([]string(nil), oa.Events...), oa.Final), "\n")
+		rec.Observed = got
+		if got != p.expect {
+			return fail("pinned-expectation", "expected\n"+p.expect+"\nobserved\n"+oa.String()+"\n--- program ---\n"+p.a)
+		}
+		return core.Result{Verdict: core.Held, NonTrivial: true, Key: sig}
+	}
+	ob := x.runVariant(p.b, oa)
+	rec.Observed = ob.String()
+	if ob.Harness != "" {
+		return fail("harness-variant", ob.Harness)
+	}
+	if oa.Final != ob.Final || !oa.Same(ob) {
+		return fail("rewrite-pair", Diff(oa, ob)+"\n--- original ---\n"+p.a+"\n--- variant ---\n"+p.b)
+	}
+	return core.Result{Verdict: core.Held, NonTrivial: true, Key: sig}
+}
